@@ -26,8 +26,9 @@ def is_ws(s):
 
 
 class Enum:
-    def __init__(self, N, out_id, ch_id, level_id, indent_fn):
+    def __init__(self, N, out_id, ch_id, level_id, indent_fn, indent_local=None):
         self.N, self.out_id, self.ch_id, self.level_id, self.indent_fn = N, out_id, ch_id, level_id, indent_fn
+        self.indent_local = indent_local       # the indentation helper written as a closure bound to a local
 
     def stmt_events(self, e):
         """events of one expression (statement position): list of alternative paths"""
@@ -87,6 +88,10 @@ class Enum:
         if k == "Call":
             cal = e.get("callee", "")
             args = e["args"]
+            if not cal and self.indent_local is not None and strip(e.get("f", {})).get("id") == self.indent_local:
+                lv = [a for a in args if _root_local(a) == self.level_id]
+                to = any(_root_local(strip(a)) == self.out_id or (strip_ref(a).get("k") == "AddrOf" and _root_local(strip_ref(a)["e"]) == self.out_id) for a in args)
+                return ev + [("indent", bool(lv) and to, e["sp"])]
             touches_out = any(_root_local(strip(a)) == self.out_id or (strip_ref(a).get("k") == "AddrOf" and _root_local(strip_ref(a)["e"]) == self.out_id) for a in args)
             def root_of(a):
                 r = strip_ref(a)
@@ -99,7 +104,7 @@ class Enum:
                 def bound(want):
                     hits = [pids[i] for i, a in enumerate(args) if want is not None and root_of(a) == want]
                     return hits[0] if len(hits) == 1 else None
-                sub = Enum(Norm(helper_fn), bound(self.out_id), bound(self.ch_id), bound(self.level_id), self.indent_fn)
+                sub = Enum(Norm(helper_fn), bound(self.out_id), bound(self.ch_id), bound(self.level_id), self.indent_fn, None)
                 if sub.out_id is not None:
                     paths = sub.block_paths(strip(helper_fn["body"])["b"])
                     if len(paths) == 1 and not any(x[0] in ("unknown", "exit") for x in paths[0]):
@@ -269,7 +274,17 @@ def check(ctx):
     cands = [b for b in cands if b["path"] in called and not any(x.get("k") == "Call" and x.get("callee") in [c2["path"] for c2 in cands if c2 is not b] for x in walk(b["body"]))]
     if len(cands) == 1:
         indent_fn = cands[0]["path"]
-    E = Enum(N, out_id, ch_id, level_id, indent_fn)
+    indent_local = None
+    indent_closure = None
+    if indent_fn is None:
+        # the same helper written as `let add_indentation = |output: &mut String, level: i32| {..}`
+        for st in body["stmts"]:
+            if st.get("k") == "SLet" and st["pat"].get("k") == "Bind" and strip(st.get("init", {})).get("k") == "Closure":
+                clo = strip(st["init"])
+                tys = [peel(x.get("ty", "")) if not x.get("ty", "").startswith("&mut") else x.get("ty") for x in clo["params"]]
+                if len(tys) == 2 and "&mut std::string::String" in tys and any(t in INTS_ for t in tys):
+                    indent_local, indent_closure = st["pat"]["id"], clo
+    E = Enum(N, out_id, ch_id, level_id, indent_fn, indent_local)
     n_paths = 0
     arms_seen = []
     for arm in m["arms"]:
@@ -338,7 +353,7 @@ def check(ctx):
     ctx.count("paths through the character dispatch", n_paths, 9)
     ctx.count("arms of the character dispatch", len(arms_seen), 8)
     ctx.expect("_" in arms_seen or "$" in arms_seen, "C15.3", "default-arm", site(m), "a default arm copies every other character", "no default arm")
-    helper(ctx, indent_fn)
+    helper(ctx, indent_fn, N, indent_closure)
     totality(ctx, fn, level_id)
 
 
@@ -359,9 +374,18 @@ def expected_level(label, path):
     return {"delta": []}
 
 
-def helper(ctx, indent_fn):
+def helper(ctx, indent_fn, N0=None, indent_closure=None):
     P = ctx.P
     fn = P.body(indent_fn) if indent_fn else None
+    if fn is None and indent_closure is not None:
+        ct = N0.term(indent_closure)
+        tys = [x.get("ty", "") for x in indent_closure["params"]]
+        i_s = tys.index("&mut std::string::String")
+        i_l = 1 - i_s
+        exp = "|2|{for(ops::Range{end:C%d_%d,start:'0'}){String::push_str(C%d_%d,'    ')}}" % (ct[1], i_l, ct[1], i_s)
+        expect_term(ctx, "C15.6", "indent-unit", indent_closure.get("sp", ""), show(ct), exp,
+                    "four spaces per level: `for _ in 0..level { output.push_str(\"    \") }` (empty for level <= 0)")
+        return
     if fn is None:
         ctx.bad("C15.6", "missing-anchor/add_indentation", "", "indentation helper not found")
         return
